@@ -9,7 +9,10 @@
    box <id>=M:<f>,<f>..;<id>=E:<f>,<f>/<f>;<id>=N:<f>;<id>=O   (f = p<id> | o)   BoxCycle.box_decisions -> owner.index=0|1 ...
    ucyc <graph>                         BoxCycle.union_cycle_b -> 1 | 0
    layout <split:0|1> <extra paths a,b;c|-> <items modpath|prefix|name|emitted; ...>   Pipeline.layout_pred
-   uniq <existing a,b|-> <simple>       Pipeline.generate_unique_name *)
+   uniq <existing a,b|-> <simple>       Pipeline.generate_unique_name
+   derive <po|heo> <order a,b|-> <id>=M:<ty>,<ty>;<id>=E:<ty>,<ty>/<ty>;<id>=N:<ty>;<id>=S|C|O
+          ty = TyKind names in prefix form joined by '.', a path is P<id>:  Map.I32.Vec.P7
+          Derive.decisions + the model's verdict  -> <id>=Y|N|D ... | closed=0|1 wsc=0|1 btree=0|1 cons=0|1   or PANIC / FUEL *)
 
 let ascii_of_char (c : char) : Model.ascii =
   let n = Char.code c in
@@ -59,6 +62,60 @@ let fty_of s =
   if s = "o" then Model.TOther
   else if String.length s > 1 && s.[0] = 'p' then Model.TPath (nat_of_int (int_of_string (String.sub s 1 (String.length s - 1))))
   else failwith ("bad field type " ^ s)
+
+let base_of = function
+  | "String" -> Some Model.BString | "FastStr" -> Some Model.BFastStr | "Void" -> Some Model.BVoid | "U8" -> Some Model.BU8
+  | "Bool" -> Some Model.BBool | "BytesVec" -> Some Model.BBytesVec | "Bytes" -> Some Model.BBytes | "I8" -> Some Model.BI8
+  | "I16" -> Some Model.BI16 | "I32" -> Some Model.BI32 | "I64" -> Some Model.BI64 | "UInt32" -> Some Model.BUInt32
+  | "UInt64" -> Some Model.BUInt64 | "F32" -> Some Model.BF32 | "F64" -> Some Model.BF64 | "OrderedF64" -> Some Model.BOrderedF64
+  | "Uuid" -> Some Model.BUuid | _ -> None
+
+(* prefix form: returns the type and the remaining tokens *)
+let rec dty_of (toks : string list) : Model.dty * string list =
+  match toks with
+  | [] -> failwith "bad type: empty"
+  | t :: r ->
+    (match base_of t with
+     | Some b -> (Model.DBase b, r)
+     | None ->
+       if String.length t > 1 && t.[0] = 'P' && (match t.[1] with '0' .. '9' -> true | _ -> false)
+       then (Model.DPath (nat_of_int (int_of_string (String.sub t 1 (String.length t - 1)))), r)
+       else
+         let one mk = let (a, r1) = dty_of r in (mk a, r1) in
+         let two mk = let (a, r1) = dty_of r in let (b, r2) = dty_of r1 in (mk a b, r2) in
+         (match t with
+          | "Vec" -> one (fun a -> Model.DVec a)
+          | "Set" -> one (fun a -> Model.DSet a)
+          | "BTreeSet" -> one (fun a -> Model.DBTreeSet a)
+          | "Arc" -> one (fun a -> Model.DArc a)
+          | "Map" -> two (fun a b -> Model.DMap (a, b))
+          | "BTreeMap" -> two (fun a b -> Model.DBTreeMap (a, b))
+          | _ -> failwith ("bad type kind " ^ t)))
+
+let dty_of_string (s : string) : Model.dty =
+  match dty_of (String.split_on_char '.' s) with
+  | (t, []) -> t
+  | _ -> failwith ("bad type (trailing tokens) " ^ s)
+
+let ditem_of (t : string) : Model.nat * Model.ditem =
+  match String.index_opt t '=' with
+  | None -> failwith ("bad item " ^ t)
+  | Some i ->
+    let id = nat_of_int (int_of_string (String.sub t 0 i)) in
+    let body = String.sub t (i + 1) (String.length t - i - 1) in
+    let rest () = if String.length body > 2 then String.sub body 2 (String.length body - 2) else "" in
+    let tys s = List.map dty_of_string (split_on ',' s) in
+    let it =
+      match body with
+      | "S" -> Model.DService | "C" -> Model.DConst | "O" -> Model.DMod
+      | _ when String.length body >= 2 && body.[1] = ':' ->
+        (match body.[0] with
+         | 'M' -> Model.DMsg (tys (rest ()))
+         | 'E' -> Model.DEnum (List.map tys (if rest () = "" then [] else String.split_on_char '/' (rest ())))
+         | 'N' -> Model.DNewType (dty_of_string (rest ()))
+         | _ -> failwith ("bad item " ^ t))
+      | _ -> failwith ("bad item " ^ t) in
+    (id, it)
 
 let run (line : string) : string =
   match String.split_on_char ' ' line with
@@ -122,6 +179,19 @@ let run (line : string) : string =
     String.concat ";" (List.map (fun (p, names) -> path_to p ^ "=" ^ String.concat "," (List.map os names))
                          (Model.layout_pred (split = "1") extra items))
   | ["uniq"; ex; s] -> os (Model.generate_unique_name (path_of ex) (cs s))
+  | ["derive"; tr; order; g] ->
+    let tr = (match tr with "po" -> Model.PO | "heo" -> Model.HEO | _ -> failwith ("bad bundle " ^ tr)) in
+    let order = if order = "-" then [] else List.map (fun x -> nat_of_int (int_of_string x)) (split_on ',' order) in
+    let items = List.map ditem_of (split_on ';' g) in
+    let b x = if x then "1" else "0" in
+    (match Model.decisions tr items order, Model.verdict tr items order with
+     | Model.Done ds, Model.Done v ->
+       String.concat " " (List.map (fun (d, c) ->
+           Printf.sprintf "%d=%s" (int_of_nat d) (match c with Model.Yes -> "Y" | Model.No -> "N" | Model.Delay -> "D")) ds)
+       ^ " | closed=" ^ b (Model.closed_b items) ^ " wsc=" ^ b (Model.ws_complete_b items)
+       ^ " btree=" ^ b (Model.btree_unsupported_b tr items) ^ " cons=" ^ b v
+     | Model.Panic, _ | _, Model.Panic -> "PANIC"
+     | _, _ -> "FUEL")
   | _ -> failwith ("bad line " ^ line)
 
 let () =
